@@ -460,6 +460,9 @@ func (cc *Conn) do(req *pool.Message) (*pool.Message, error) {
 
 // DoObserve subscribes for every change with request.
 func (cc *Conn) doObserve(req *pool.Message, observeFunc func(req *pool.Message)) (client.Observation, error) {
+	// The registration waits for its answer. When it is issued from a handler the reader loop is
+	// busy with that handler, so - as for requests - let another loop process incoming messages meanwhile.
+	cc.receivedMessageReader.TryToReplaceLoop()
 	return cc.observationHandler.NewObservation(req, observeFunc)
 }
 
@@ -629,6 +632,8 @@ func (cc *Conn) AsyncPing(receivedPong func()) (func(), error) {
 		removeMidHandler()
 		return nil, fmt.Errorf(errFmtWriteRequest, err)
 	}
+	// a ping issued from a handler must not stop incoming messages (incl. the pong) from being read
+	cc.receivedMessageReader.TryToReplaceLoop()
 	return removeMidHandler, nil
 }
 
